@@ -4,18 +4,34 @@ Line-protocol driver for the C16 models.  Parsing glue only; every reply is comp
 ops:
   ljson G {name n d c₁…c_{n·d} (E | -1) [a b]… L {label b₁…b_n}}   export → JSON tree → import
         → ok G {name cls n d coords E [a b]… L {label bits}} | err kind
+  ljson2 ROWS EDGES L {label k i₁…i_k}                                a version-2 document → import
+  ljson1 G {label ROWS EDGES}                                          a version-1 document → import
+        ROWS = n {d c₁…c_d} (rows may be ragged), EDGES = -2 (key absent) | -1 (null) | E [a b]…
+        → the same reply as `ljson`
   pts n {y x}          → ok {y' x'}                 (points format round trip, exact rationals)
+  ptsn ROWS            → ok n {y' x'} | err         (any dimension, `nan` = missing; err = fewer than two axes)
+  ptree FILE TREE      → ok TREE      (export_pickle → import_pickle around the serialiser; TREE in prefix form:
+                         A n | P c k parts… | L k trees… | T k trees… | D k {key tree}… | O cls k {field tree}…)
   u8 k                 → ok trunc round             (IEEE binary64: coded and repaired eight-bit conversion)
   q8 x                 → ok trunc round             (exact quantisation of a float pixel)
+  lost N lo hi         → ok nT {k} nR {k} | nT {k} nR {k}    levels lo ≤ k < hi of the range 0…N that normalise → denormalise
+                         does not return (T: truncating cast, R: rounding), by the exact 53-bit model | by Lean `Float`
   mode channels dims   → ok L | ok RGB | err
-  norm cwd spelling    → ok /a/b/c
+  norm cwd E {name value} spelling    → ok /a/b/c /a/b/c      (`_norm_path(Path(s))`, `_norm_path(s)` of the raw str)
   ext kind name        → ok .ext | err
   exts kind            → ok .e₁ .e₂ …
-  guard cwd m {existing} n {kind spelling (userext | -) overwrite}  → ok o₁…o_n | {path content}
+  lmfront multi (userext | -) name   → ok .ext | err      (export_landmark_file: front check + extension)
+  dec kind name        → (ok .ext gz | err) | (.ext importer gz | err)     exporter's and importer's decision for a name
+  guard cwd E {name value} m {existing} n {kind spelling (userext | -) overwrite asStr}
+        → ok o₁…o_n | {path content} || o₁…o_n | {path content}     (as coded || with checked path = written path)
         (content = number of the export whose bytes the file holds, 1000+j for the j-th pre-existing file)
 -/
 import MenpoModel.Core.Codec
 import MenpoModel.Core.C16
+import MenpoModel.Core.C16Ext
+import MenpoModel.Core.C16Soft
+import MenpoModel.Core.C16PtsN
+import MenpoModel.Core.C16Pickle
 
 namespace MenpoModel.Drive.C16
 open MenpoModel.Codec MenpoModel.C16
@@ -33,6 +49,54 @@ def pShape : P (String × Shape) := do
   let labels ← pMany (do let l ← tok; let m ← pMany pBool n; pure (l, m)) nl
   pure (name, { points := pts, conn := conn, labels := labels })
 
+def pRows : P (List (List (Option Rat))) := pList (pList pORat)
+
+/-- `-2`: no `connectivity` key; `-1`: `null`; otherwise the list of pairs -/
+def pEdges : P (List (Key × Json)) := do
+  let e ← pInt
+  if e == -2 then pure []
+  else if e < 0 then pure [(.connectivity, .null)]
+  else do
+    let es ← pMany (do let a ← pNat; let b ← pNat; pure (a, b)) e.toNat
+    pure [(.connectivity, .arr (es.map jPair))]
+
+def jRows (rows : List (List (Option Rat))) : List Json := rows.map fun r => Json.arr (r.map jOpt)
+
+/-- the JSON tree of a version-2 file (glue: the tree is what `json.load` hands to the parser) -/
+def pDocV2 : P Json := do
+  let rows ← pRows
+  let conn ← pEdges
+  let labels ← pList (do let l ← tok; let idx ← pList pNat; pure (l, idx))
+  pure (.obj [(.labels, .arr (labels.map fun l => .obj [(.label, .str l.1), (.mask, .arr (l.2.map jNat))])),
+              (.landmarks, .obj (conn ++ [(.points, .arr (jRows rows))])), (.version, jNat 2)])
+
+def pDocV1 : P Json := do
+  let groups ← pList (do
+    let l ← tok
+    let rows ← pRows
+    let conn ← pEdges
+    pure (Json.obj (conn ++ [(.label, .str l), (.landmarks, .arr ((jRows rows).map fun r => .obj [(.point, r)]))])))
+  pure (.obj [(.groups, .arr groups), (.version, jNat 1)])
+
+partial def pTree : P PVal := do
+  let t ← tok
+  match t with
+  | "A" => do let n ← pNat; pure (.atom n)
+  | "P" => do let c ← pBool; let ps ← pList tok; pure (.path c ps)
+  | "L" => do let n ← pNat; let xs ← pMany pTree n; pure (.list xs)
+  | "T" => do let n ← pNat; let xs ← pMany pTree n; pure (.tuple xs)
+  | "D" => do let n ← pNat; let kvs ← pMany (do let k ← tok; let v ← pTree; pure (k, v)) n; pure (.dict kvs)
+  | "O" => do let c ← tok; let n ← pNat; let fs ← pMany (do let k ← tok; let v ← pTree; pure (k, v)) n; pure (.obj c fs)
+  | _ => failure
+
+partial def fTree : PVal → String
+  | .atom n => "A " ++ toString n
+  | .path c ps => " ".intercalate (["P", if c then "1" else "0", toString ps.length] ++ ps)
+  | .list xs => " ".intercalate (["L", toString xs.length] ++ xs.map fTree)
+  | .tuple xs => " ".intercalate (["T", toString xs.length] ++ xs.map fTree)
+  | .dict kvs => " ".intercalate (["D", toString kvs.length] ++ kvs.flatMap fun kv => [kv.1, fTree kv.2])
+  | .obj c fs => " ".intercalate (["O", c, toString fs.length] ++ fs.flatMap fun kv => [kv.1, fTree kv.2])
+
 def fORat : Option Rat → String
   | none => "nan"
   | some q => fmtRat q
@@ -45,13 +109,16 @@ def fImported (g : String × Imported) : String :=
   let cls := match i.cls with
     | .pug => "PointUndirectedGraph"
     | .lpug => "LabelledPointUndirectedGraph"
+    | .pc => "PointCloud"
   " ".intercalate ([g.1, cls, toString i.points.length, toString d] ++ i.points.flatten.map fORat ++
     [toString i.edges.length] ++ i.edges.flatMap (fun e => [toString e.1, toString e.2]) ++
     [toString i.labels.length] ++ i.labels.flatMap (fun l => l.1 :: l.2.map fun b => if b then "1" else "0"))
 
 def fErr : Err → String
   | .unknownVersion => "unknown-version"
-  | .legacyVersion => "legacy-version"
+  | .edgeOutOfRange => "edge-out-of-range"
+  | .emptyLabels => "empty-labels"
+  | .unlabelledPoint => "unlabelled-point"
   | .emptyPoints => "empty-points"
   | .malformed => "malformed"
 
@@ -73,8 +140,14 @@ def pOp (i : Nat) : P Op := do
   let sp ← tok
   let ue ← tok
   let ow ← pBool
+  let st ← pBool
   pure { kind := k, spelling := sp.toList, userExt := if ue == "-" then none else some ue.toList,
-         overwrite := ow, content := i }
+         overwrite := ow, content := i, asStr := st }
+
+/-- `E {name value}`: the environment variables `_norm_path` can see -/
+def pEnv : P Env := do
+  let vs ← pList (do let n ← tok; let v ← tok; pure (n.toList, (if v == "-" then "" else v).toList))
+  pure ⟨vs⟩
 
 def pOps : Nat → Nat → P (List Op)
   | 0, _ => pure []
@@ -92,8 +165,26 @@ def step (toks : List String) : String :=
       | .ok res => "ok " ++ toString res.length ++ " " ++ " ".intercalate (res.map fImported)
       | .error e => "err " ++ fErr e
     | none => "bad-op"
+  | "ljson2" :: r => match runP pDocV2 r with
+    | some j => match decodeDoc j with
+      | .ok res => "ok " ++ toString res.length ++ " " ++ " ".intercalate (res.map fImported)
+      | .error e => "err " ++ fErr e
+    | none => "bad-op"
+  | "ljson1" :: r => match runP pDocV1 r with
+    | some j => match decodeDoc j with
+      | .ok res => "ok " ++ toString res.length ++ " " ++ " ".intercalate (res.map fImported)
+      | .error e => "err " ++ fErr e
+    | none => "bad-op"
   | "pts" :: r => match runP (pList (do let y ← pRat; let x ← pRat; pure (y, x))) r with
     | some ps => "ok " ++ fmtRats ((ptsRoundTrip ps).flatMap fun p => [p.1, p.2])
+    | none => "bad-op"
+  | "ptsn" :: r => match runP pRows r with
+    | some rows => match ptsRoundTripN rows with
+      | some back => "ok " ++ toString back.length ++ " " ++ " ".intercalate (back.flatten.map fORat)
+      | none => "err"
+    | none => "bad-op"
+  | "ptree" :: r => match runP (do let f ← pTree; let v ← pTree; pure (f, v)) r with
+    | some (f, v) => "ok " ++ fTree (pickleRoundTrip f v)
     | none => "bad-op"
   | ["u8", k] => match k.toNat? with
     | some k => s!"ok {(denormTrunc (norm8 k)).toNat} {(denormRound (norm8 k)).toNat}"
@@ -101,30 +192,55 @@ def step (toks : List String) : String :=
   | "q8" :: r => match runP pRat r with
     | some x => s!"ok {quantTrunc x} {quantRound x}"
     | none => "bad-op"
+  | "lost" :: r => match runP (do let n ← pNat; let lo ← pNat; let hi ← pNat; pure (n, lo, hi)) r with
+    | some (n, lo, hi) =>
+      let f := fun (l : List Nat) => toString l.length ++ (if l.isEmpty then "" else " ") ++ fmtNats l
+      "ok " ++ f (lostValues n true lo hi) ++ " " ++ f (lostValues n false lo hi) ++ " | " ++
+        f (lostValuesF n true lo hi) ++ " " ++ f (lostValuesF n false lo hi)
+    | none => "bad-op"
   | "mode" :: r => match runP (do let c ← pNat; let d ← pNat; pure (c, d)) r with
     | some (c, d) => match pilMode c d with
       | some .L => "ok L"
       | some .RGB => "ok RGB"
       | none => "err"
     | none => "bad-op"
-  | ["norm", cwd, sp] => "ok " ++ fPath (normPath (cwdOf cwd) sp.toList)
+  | "norm" :: cwd :: r => match runP (do let e ← pEnv; let sp ← tok; pure (e, sp)) r with
+    | some (e, sp) => "ok " ++ fPath (normPath e (cwdOf cwd) sp.toList) ++ " " ++ fPath (normPathRaw e (cwdOf cwd) sp.toList)
+    | none => "bad-op"
   | "ext" :: r => match runP (do let k ← pKind; let n ← tok; pure (k, n)) r with
     | some (k, n) => match parseExt (knownExts k) n.toList with
       | some e => "ok " ++ String.ofList e
       | none => "err"
     | none => "bad-op"
+  | "dec" :: r => match runP (do let k ← pKind; let n ← tok; pure (k, n)) r with
+    | some (k, n) =>
+      let b := fun (x : Bool) => if x then "1" else "0"
+      let ex := match exportDecision k n.toList with
+        | some d => "ok " ++ String.ofList d.1 ++ " " ++ b d.2
+        | none => "err"
+      let im := match importerFor k n.toList, importDecision k n.toList with
+        | some r, some d => String.ofList r.1 ++ " " ++ r.2 ++ " " ++ b d.2
+        | _, _ => "err"
+      ex ++ " | " ++ im
+    | none => "bad-op"
+  | ["lmfront", m, ue, n] =>
+    match exportLandmarkDecision (m == "1") (if ue == "-" then none else some ue.toList) n.toList with
+    | some e => "ok " ++ String.ofList e
+    | none => "err"
   | "exts" :: r => match runP pKind r with
     | some k => "ok " ++ " ".intercalate (extTable k)
     | none => "bad-op"
-  | "guard" :: cwd :: r => match runP (do let pre ← pList tok; let n ← pNat; let ops ← pOps n 0; pure (pre, ops)) r with
-    | some (pre, ops) =>
+  | "guard" :: cwd :: r =>
+    match runP (do let e ← pEnv; let pre ← pList tok; let n ← pNat; let ops ← pOps n 0; pure (e, pre, ops)) r with
+    | some (e, pre, ops) =>
       let c := cwdOf cwd
-      let prePaths := pre.map fun s => normPath c s.toList
+      let prePaths := pre.map fun s => normAbs (c ++ splitC '/' s.toList)     -- literal relative paths, no expansion
       let fs0 : FS := fun q => (prePaths.idxOf? q).map (· + 1000)
-      let res := runHistory c fs0 ops
-      let paths := (prePaths ++ ops.map fun o => normPath c o.spelling).eraseDups
-      let listing := paths.filterMap fun p => (res.2 p).map fun v => fPath p ++ " " ++ toString v
-      "ok " ++ "".intercalate (res.1.map fOutcome) ++ " | " ++ " ".intercalate listing
+      let paths := (prePaths ++ ops.flatMap fun o => [normPath e c o.spelling, writePathCoded e c o]).eraseDups
+      let show_ := fun (res : List Outcome × FS) =>
+        let listing := paths.filterMap fun p => (res.2 p).map fun v => fPath p ++ " " ++ toString v
+        "".intercalate (res.1.map fOutcome) ++ " | " ++ " ".intercalate listing
+      "ok " ++ show_ (runHistoryCoded e c fs0 ops) ++ " || " ++ show_ (runHistory e c fs0 ops)
     | none => "bad-op"
   | _ => "bad-op"
 
